@@ -90,5 +90,51 @@ def run(ctx):
             res.fail(Finding("R-ZERO", key + "/incomplete-zero-fill", "; ".join(problems), f, zs[0].term["span"]))
         else:
             res.ok({"function": f.path, "zero_fill": [z.name.split("::")[-1] for z in zs], "controlled_by": "new_stream_len > old stream_len", "precedes": "stream_len store"}, nontrivial=True)
+    # the zero-fill helpers themselves: the only way out without writing zeros is "the range is empty"
+    nb = 0
+    for f in list(ctx.fx.fns.values()):
+        if not f.path.startswith(tbl.get("helper_module", "internal::stream::")) or f.path in tbl.get("resize_functions", []) or f.kind == "closure":
+            continue
+        zs = _direct_zero_events(ctx, f)
+        if not zs or not any(re.search(r"take\(", " ".join(Prov(f).operand(a) for a in z.term["args"])) for z in zs):
+            continue
+        nb += 1
+        v = view(ctx, f)
+        pg = v.pg
+        pr = Prov(f)
+        g = guards(ctx, f)
+        ranges = []
+        for z in zs:
+            for a in z.term["args"]:
+                m = re.search(r"take\(.*?,Sub\((.*)\)\)", pr.operand(a))
+                if m:
+                    from prov import _split_top
+                    parts = _split_top(m.group(1))
+                    if len(parts) == 2:
+                        ranges.append((parts[0], parts[1]))
+        skip = set()
+        for bb, blk in enumerate(f.blocks):
+            if blk["cleanup"] or blk["term"]["t"] != "switch":
+                continue
+            t = blk["term"]
+            vals = [str(x) for x, _ in t["arms"]] + ["otherwise"]
+            tg = [b for _, b in t["arms"]] + [t["otherwise"]]
+            for val, tgt in zip(vals, tg):
+                atoms = g.describe_all(bb, val, vals)
+                for (x, y) in ranges:
+                    if any(a in ("(Le(%s,%s))" % (x, y), "(Ge(%s,%s))" % (y, x), "(Eq(%s,%s))" % (x, y), "(Eq(%s,%s))" % (y, x)) for a in atoms):
+                        skip.update(pg.edge_node(bb, tgt))
+        zok = set()
+        for z in zs:
+            zok.update(v.ok_nodes(z.bb) or [("t", z.bb)])
+        reach = pg.reach([pg.entry()], zok | skip | set(v.all_err_nodes()))
+        rets = [x for x in reach if x[0] == "t" and f.blocks[x[1]]["term"]["t"] == "return"]
+        if rets:
+            pth = pg.path(pg.entry(), rets, zok | skip | set(v.all_err_nodes()))
+            conds = sorted({a for nd in (pth or []) if nd[0] == "e" for a in g.atoms_at(nd)[:0]})
+            res.fail(Finding("R-ZERO", "R-ZERO/%s/skips-zero-fill" % f.path, "%s can return Ok without writing zeros although the range is not tested to be empty (the only accepted way round the fill is end <= from for the range %s): stale bytes of the old tail stay visible" % (f.path, "; ".join("[%s, %s)" % (y[:40], x[:40]) for x, y in ranges)[:200]), f, f.blocks[rets[0][1]]["term"]["span"]))
+        else:
+            res.ok({"function": f.path, "zero_events": [z.line for z in zs], "skip_only_if": ["%s <= %s" % (x[:50], y[:30]) for x, y in ranges]}, nontrivial=True)
+    res.floor("zero-fill helpers", nb, ctx.table("floors").get("zero_helpers", 0))
     res.floor("resize functions", n, ctx.table("floors").get("zero_fns", 0))
     return res
